@@ -58,4 +58,56 @@ CHECKS = {
                      "comparison over seeded operation histories",
         "design_ref": "DESIGN.md section 3, C01",
     },
+    "C02": {
+        "bin": "c02",
+        "level": "exploration",
+        "quick": {"shards": 12, "budget_s": 75, "min_evaluations": 200},
+        "thorough": {"shards": 14, "budget_s": 900, "min_evaluations": 2000},
+        "rule": (
+            "evaluations = issuer publications observed (every repo-sync "
+            "task of every CA, each checked for containment of every "
+            "published child certificate in the certificate the issuer "
+            "holds for the issuing key, and for replacement of each "
+            "affected child certificate in the first publication after the "
+            "issuer's certificate shrank) + convergence checks per "
+            "(child, parent) at caught-up points (exact per-class resources "
+            "= entitlement intersected with the issuer's class, one "
+            "published certificate per active key, no open requests) + "
+            "idempotence checks (one more sync round must not add commands "
+            "or change repository bytes). Histories: 5 boundary scripts "
+            "(suspend/unsuspend then issuer shrink; shrink to partial/"
+            "nothing/regain; grow at two levels; two-parent child; mapped "
+            "class name) + random entitlement histories on a 4-level chain "
+            "and on the two-parent forest. distinct_nontrivial counts "
+            "distinct (issuer resources, entitlement, certificate "
+            "resources) triples at issuer shrinks and distinct (parent, "
+            "entitlement, held classes) triples at convergence."
+        ),
+        "assumptions": COMMON_ASSUMPTIONS + [
+            "requested resource limits are not exercised by local "
+            "children (krill's own child never sends a limit); limits are "
+            "covered only by the harness-played remote child in C12",
+            "the TA's children keep strict subsets of all resources "
+            "(krill deliberately re-requests for an all-resources child)",
+        ],
+        "level_text": (
+            "Runtime monitoring of every issuer publication and every "
+            "caught-up point in generated entitlement histories; the "
+            "oracle recomputes the expected certificate resources from "
+            "entitlements and the certificates issuers hold, decodes what "
+            "the publication server holds and compares. Bounded progress "
+            "restatement of 'a bounded number of synchronisations': at most "
+            "10 rounds of every-CA-calls-its-parents."
+        ),
+        "level_note": (
+            "Trusted: rpki-rs certificate decoding, the API views of "
+            "entitlements/held certificates (they are the configuration "
+            "and the CA's own belief, which is what the property relates "
+            "the published certificates to)."
+        ),
+        "technique": "runtime monitoring: per-publication containment/"
+                     "replacement monitor + convergence and idempotence "
+                     "oracle over entitlement histories",
+        "design_ref": "DESIGN.md section 3, C02",
+    },
 }
